@@ -165,7 +165,7 @@ fn choose_arg_from_list_or_tail(
         if let Some(t) = tail {
             let target_shift = index - args.len();
             let target_path =
-                (two.clone() << target_shift) | (((two << target_shift) - bi_one()) >> 2);
+                (two.clone() << target_shift) | (((two << target_shift) - bi_one()) >> 1);
             return Ok(Rc::new(BodyForm::Call(
                 callsite.clone(),
                 vec![
